@@ -647,7 +647,7 @@ def materialise(spec):
         r27 = random.Random(spec["seed"] + 27)
         period = r27.choice([2, 3, 4])
         chain = r27.choice(["W", "", "A"])
-        base = r27.choice([201, 9998, 1])
+        base = r27.choice([201, 9996, 1])      # stays within the four-column residue number
         remap = {}
         for it in out["items"]:
             if isinstance(it, dict) and it["resn"] in ("HOH", "WAT"):
